@@ -33,6 +33,48 @@ fn heartbeat() {
     let _ = l.flush();
 }
 
+/// Number of simulation events one call into the system under test may produce. The largest
+/// legitimate calls (sending a maximum-size packet byte by byte against a transmitter that
+/// would-blocks hundreds of thousands of times; an exchange over 12 000 queued entries) stay
+/// below two million. A call beyond the budget is running away - e.g. a dispatch loop that
+/// never ends but keeps invoking handlers, which neither the starvation detection of the
+/// devices nor the driver's watchdog (heartbeats keep coming) would stop - and is unwound with
+/// the same sentinel as a blocked call.
+pub const CALL_EVENT_BUDGET: u64 = 8_000_000;
+/// Once a call of a run has run away, the later calls of the same run get this much only
+/// (the run is lost anyway; it should end quickly).
+pub const CALL_EVENT_BUDGET_AFTER_RUNAWAY: u64 = 100_000;
+
+thread_local! {
+    /// step count beyond which the SUT call in progress is unwound (0 = no call in progress)
+    static CALL_LIMIT: std::cell::Cell<u64> = std::cell::Cell::new(0);
+    /// step count of the most recent event of any Sim of this thread (for `sut`, which has no Sim handle)
+    static LAST_STEPS: std::cell::Cell<u64> = std::cell::Cell::new(0);
+    /// a call of the current run has exceeded its budget
+    static RAN_AWAY: std::cell::Cell<bool> = std::cell::Cell::new(false);
+}
+
+/// Called at the start of every run.
+pub fn reset_call_budget() {
+    CALL_LIMIT.with(|c| c.set(0));
+    LAST_STEPS.with(|l| l.set(0));
+    RAN_AWAY.with(|r| r.set(false));
+}
+
+fn check_call_budget(steps: u64) {
+    LAST_STEPS.with(|l| l.set(steps));
+    let limit = CALL_LIMIT.with(|c| c.get());
+    if limit != 0 && steps > limit {
+        // disarm first: unwinding runs destructors that may log
+        CALL_LIMIT.with(|c| c.set(0));
+        RAN_AWAY.with(|r| r.set(true));
+        if std::env::var("ROSSSIM_DEBUG_BUDGET").is_ok() {
+            eprintln!("budget tripped at step {} (limit {})", steps, limit);
+        }
+        std::panic::panic_any(BlockedSentinel);
+    }
+}
+
 /// Panic payload used by a starved device to unwind out of a blocked SUT call.
 pub struct BlockedSentinel;
 
@@ -150,6 +192,12 @@ impl Sim {
         if s.steps & HEARTBEAT_MASK == 0 {
             heartbeat();
         }
+        if s.steps & 0x3ff == 0 {
+            let steps = s.steps;
+            drop(s);
+            check_call_budget(steps);
+            s = self.0.borrow_mut();
+        }
         if s.trace_on {
             let step = s.steps;
             let t = text();
@@ -184,6 +232,12 @@ impl Sim {
         s.steps += 1;
         if s.steps & HEARTBEAT_MASK == 0 {
             heartbeat();
+        }
+        if s.steps & 0x3ff == 0 {
+            let steps = s.steps;
+            drop(s);
+            check_call_budget(steps);
+            s = self.0.borrow_mut();
         }
         if s.trace_on && s.trace.len() < trace_cap() {
             let step = s.steps;
@@ -282,7 +336,15 @@ pub fn install_panic_hook() {
 /// "blocked forever" sentinel are turned into values.
 pub fn sut<T>(f: impl FnOnce() -> T) -> Result<T, Crash> {
     let prev = alloc::set_domain(alloc::SUT);
+    let outermost = CALL_LIMIT.with(|c| c.get()) == 0;
+    if outermost {
+        let budget = if RAN_AWAY.with(|r| r.get()) { CALL_EVENT_BUDGET_AFTER_RUNAWAY } else { CALL_EVENT_BUDGET };
+        CALL_LIMIT.with(|c| c.set(LAST_STEPS.with(|l| l.get()) + budget));
+    }
     let r = catch_unwind(AssertUnwindSafe(f));
+    if outermost {
+        CALL_LIMIT.with(|c| c.set(0));
+    }
     alloc::set_domain(prev);
     match r {
         Ok(v) => Ok(v),
